@@ -217,13 +217,19 @@ def _guarded(fn):
         return {'error': 'EXC:' + type(e).__name__, 'msg': D.scrub(str(e))}
 
 
+KEEP = {'on': False, 'items': []}     # history process only: results kept alive for a final re-dump
+
+
 def parse_general(ctx, kind, doc, tolerant, clock=None):
     from pylatexenc.latexnodes.parsers import LatexGeneralNodesParser
     w = _walker(ctx, kind, doc, tolerant)
 
     def go():
         nodes, delta = w.parse_content(LatexGeneralNodesParser())
-        return D.Dumper().result(nodes, delta)
+        res = D.Dumper().result(nodes, delta)
+        if KEEP['on'] and len(KEEP['items']) < 40:
+            KEEP['items'].append([nodes, delta, res, doc])
+        return res
     res = _guarded(go)
     if clock is not None:
         clock[0] += w.sim_clock[0]
@@ -360,7 +366,12 @@ def execute(program):
     clock = [0]
     violation = None
     repo = core.repo_path()
+    KEEP['on'] = True
+    KEEP['items'] = []
+    kept_from = {}
     for opi, op in enumerate(program['ops']):
+        for it in KEEP['items']:
+            kept_from.setdefault(id(it), opi - 1)
         kind = op[0]
         if kind == 'mkctx':
             if len(ctxs) < MAX_CTX:
@@ -488,7 +499,20 @@ def execute(program):
         sigs.add(shared_state_signature())
         trace.append(rec)
     stats.inc('ticks', clock[0])
-    return {'trace': trace, 'stats': stats, 'sigs': sorted(sigs)}
+    # results handed out earlier must not have been altered by anything that happened later
+    KEEP['on'] = False
+    altered = None
+    for it in KEEP['items']:
+        nodes, delta, res, doc = it
+        try:
+            again = D.Dumper().result(nodes, delta)
+        except Exception as e:
+            again = {'error': 'EXC:' + type(e).__name__}
+        stats.inc('earlier-results-redumped')
+        if again != res and altered is None:
+            altered = {'op_index': kept_from.get(id(it), len(program['ops']) - 1), 'doc': doc,
+                       'before': res, 'after': again}
+    return {'trace': trace, 'stats': stats, 'sigs': sorted(sigs), 'altered': altered}
 
 
 def reference_single(recipe, request):
@@ -636,6 +660,12 @@ def run_program(program, env):
                     break
             if violation:
                 break
+    if violation is None and out.get('altered'):
+        a = out['altered']
+        oi = max(0, min(a['op_index'], len(program['ops']) - 1))
+        violation = {'invariant': 'earlier-result-unaltered', 'op_index': oi, 'op': program['ops'][oi],
+                     'observed': _diff(a['after'], a['before']),
+                     'expected': 'the tree returned for %r is not changed by later operations' % (a['doc'][:60],)}
     # non-trivial: a stateful shared parser kind used by >= 2 operations separated by another operation
     nontrivial = any(b - a >= 2 for a, b in zip(stateful_positions, stateful_positions[1:]))
     if len(stateful_positions) >= 2:
